@@ -239,7 +239,11 @@ def h7797(alg):
 
 def as_src(key, src):
     from joserfc.jwk import KeySet
-    return KeySet([key]) if src == "SrcSet" else key
+    if src == "SrcSet":
+        return KeySet([key])
+    if src == "SrcCall":
+        return lambda obj: key
+    return key
 
 
 def jws_make_token(entry, alg, refkey):
@@ -597,6 +601,88 @@ def gen_jwe(ctx):
     return out
 
 
+# ----------------------------------------------------------------------------------
+# histories: several calls on ONE key object
+# ----------------------------------------------------------------------------------
+def op_calls(kind, rng):
+    """operation name -> a descriptor skeleton performing that key operation with a key of this kind"""
+    kty, p = kind
+    enc = rng.choice(list(ENC_CEK))
+    J = lambda entries, alg: {"fam": "jws", "entry": rng.choice(entries), "alg": alg}      # noqa
+    E = lambda entries, alg, e=None: {"fam": "jwe", "entry": rng.choice(entries), "alg": alg, "enc": e or enc}   # noqa
+    SER = ["JSerCompact", "JSerFlat", "JSerGen", "J97SerCompact", "J97SerJson", "JwtEncode"]
+    DES = ["JDesCompact", "JDesFlat", "JDesGen", "J97DesCompact", "J97DesJson", "JwtDecode"]
+    EENC = ["EEncCompact", "EEncFlat", "EEncGen", "EEncFlatPre", "EJwtEncode"]
+    EDEC = ["EDecCompact", "EDecFlat", "EDecGen", "EJwtDecode"]
+    if kty == "oct":
+        hs = rng.choice(["HS256", "HS384", "HS512"])
+        kw = {128: ["A128KW", "A128GCMKW"], 192: ["A192KW", "A192GCMKW"], 256: ["A256KW", "A256GCMKW"]}.get(p)
+        pb = rng.choice(["PBES2-HS256+A128KW", "PBES2-HS384+A192KW", "PBES2-HS512+A256KW"])
+        out = {"sign": J(SER, hs), "verify": J(DES, hs), "deriveKey": E(EENC + EDEC, pb)}
+        if kw:
+            a = rng.choice(kw)
+            out["wrapKey"] = E(EENC, a)
+            out["unwrapKey"] = E(EDEC, a)
+        return out
+    if kty == "RSA":
+        sg = rng.choice(["RS256", "RS384", "PS256", "PS384"])
+        ea = rng.choice(["RSA-OAEP", "RSA-OAEP-256", "RSA1_5"])
+        return {"sign": J(SER, sg), "verify": J(DES, sg), "encrypt": E(EENC, ea), "decrypt": E(EDEC, ea)}
+    if kty == "EC":
+        es = {v: k for k, v in ES_CURVE.items()}[p]
+        ea = rng.choice(["ECDH-ES", "ECDH-ES+A128KW", "ECDH-ES+A256KW"])
+        return {"sign": J(SER, es), "verify": J(DES, es), "deriveKey": E(EENC, ea), "ecdh-decrypt": E(EDEC, ea)}
+    if p in ("Ed25519", "Ed448"):
+        return {"sign": J(SER, "EdDSA"), "verify": J(DES, "EdDSA")}
+    ea = rng.choice(["ECDH-ES", "ECDH-ES+A192KW"])
+    return {"deriveKey": E(EENC, ea), "ecdh-decrypt": E(EDEC, ea)}
+
+
+HIST_KINDS = [("oct", 128), ("oct", 256), ("oct", 192), ("RSA", 2048), ("EC", "P-256"), ("EC", "secp256k1"),
+              ("OKP", "Ed25519"), ("OKP", "X25519")]
+
+
+def gen_histories(ctx):
+    """-> [(key descriptor, [step descriptor, ...])]: for every key (kind x key_ops subset x use x private) each
+    operation its key_ops permit is performed first, then every other operation - permitted or not - on the SAME
+    key object, directly, inside a KeySet and through a callable; plus interleavings of two operations"""
+    rng = ctx.rng
+    out = []
+    for kind in HIST_KINDS:
+        calls0 = op_calls(kind, rng)
+        opnames = [o for o in calls0 if o in ALL_OPS]
+        subsets = [[o] for o in opnames] + [list(c) for c in itertools.combinations(opnames, 2)] + [list(opnames), None]
+        if ctx.quick:
+            subsets = [[o] for o in opnames] + rng.sample(subsets[len(opnames):], min(3, len(subsets) - len(opnames)))
+        for ops in subsets:
+            for private in ([True] if kind[0] == "oct" else [True, False]):
+                use = rng.choice([None, None, "sig", "enc"])
+                if not consistent(use, ops):
+                    use = None
+                base = {"kind": list(kind), "private": private, "use": use, "ops": ops, "kalg": None, "tag": "a",
+                        "variant": None, "sender": None, "refkind": None}
+                permitted = [o for o in opnames if ops is None or o in ops]
+                for first in permitted:
+                    calls = op_calls(kind, rng)
+                    seconds = list(calls)
+                    if ctx.quick and len(seconds) > 3:
+                        seconds = rng.sample(seconds, 3)
+                    for second in seconds:
+                        steps = [first, second]
+                        if rng.random() < 0.35:      # interleave: A, B, A / A, B, C
+                            steps.append(rng.choice([first] + list(calls)))
+                        seq = []
+                        for o in steps:
+                            c = dict(op_calls(kind, rng)[o])
+                            pre = c["entry"] in JWE_PRE
+                            c.update(base)
+                            c["src"] = "SrcKey" if pre else rng.choice(["SrcKey", "SrcKey", "SrcSet", "SrcCall"])
+                            c["op"] = o
+                            seq.append(c)
+                        out.append((base, seq))
+    return out
+
+
 MULTI_ALGS = ["RSA1_5", "RSA-OAEP", "RSA-OAEP-256", "A128KW", "A192KW", "A256KW", "A128GCMKW", "A192GCMKW", "A256GCMKW",
               "PBES2-HS256+A128KW", "PBES2-HS384+A192KW", "PBES2-HS512+A256KW",
               "ECDH-ES+A128KW", "ECDH-ES+A192KW", "ECDH-ES+A256KW"]
@@ -731,12 +817,13 @@ class Runner:
             return None
         return self.mats.key(s["kind"][0], s["kind"][1], s["tag"], s["private"], params_of(s["use"], s["ops"], None))
 
-    def run_jws(self, d):
-        """-> (outcome class, exception, model-args dict) or None when the key cannot be built"""
+    def run_jws(self, d, key=None):
+        """-> (outcome class, exception, model-args dict) or None when the key cannot be built.
+        key: use this (already used) key object instead of a fresh one"""
         entry, alg = d["entry"], d["alg"]
         kind = tuple(d["kind"])
         try:
-            key = self.test_key(d)
+            key = key if key is not None else self.test_key(d)
             info = key_info(key)
         except ValueError:
             return None
@@ -770,11 +857,11 @@ class Runner:
         out, exc = outcome(f)
         return out, exc, {"info": info, "mat": mat, "siglen": siglen}
 
-    def run_jwe(self, d):
+    def run_jwe(self, d, key=None):
         entry, alg, enc = d["entry"], d["alg"], d["enc"]
         kind = tuple(d["kind"])
         try:
-            key = self.test_key(d)
+            key = key if key is not None else self.test_key(d)
             sender = self.sender_key(d["sender"])
             info = key_info(key)
             sinfo = key_info(sender) if sender is not None else None
@@ -1146,7 +1233,9 @@ def run(ctx):
         for d in descs:
             first = (d["entry"], d["alg"]) not in seen
             seen.add((d["entry"], d["alg"]))
-            if first or d.get("variant") == "pubmac" or d.get("must") or rng.random() < 0.5:
+            must = d.get("must") and (d["fam"] != "jwe" or d["entry"] in ("EEncCompact", "EDecCompact", "EEncGen", "EDecFlat")
+                                      or rng.random() < 0.5)
+            if first or d.get("variant") == "pubmac" or must or rng.random() < 0.5:
                 keep.append(d)
         descs = keep
     exported = None
@@ -1188,6 +1277,87 @@ def run(ctx):
             ctx.violation({"kind": v, "entry": d["entry"], "alg": d["alg"]},
                           "the call succeeded with an unsuitable key: " + describe(d),
                           {"desc": d, "jwks": export_mats(mats), "outcome": out})
+
+    # ---- histories: several calls on ONE key object (the gates are stateless: a warm-up with a permitted
+    # operation must not change the verdict of any later operation)
+    nh = 0
+    for base, seq in gen_histories(ctx):
+        try:
+            obj = runner.test_key(base)
+            key_info(obj)
+        except ValueError:
+            continue
+        done = []
+        for step in seq:
+            run_x = runner.run_jws if step["fam"] == "jws" else runner.run_jwe
+            r = run_x(step, key=obj)
+            rf = run_x(step)                      # the same call with a fresh key object
+            if r is None or rf is None:
+                break
+            out, exc, args = r
+            outf = rf[0]
+            nh += 1
+            hist = " after [%s] on the same key object" % ", ".join(done) if done else ""
+            ctx.note_case(("hist", json.dumps(step, sort_keys=True), tuple(done)))
+            if step["fam"] == "jws":
+                term = "CJws %s %s %s %s %s %s %s" % (step["entry"], step["src"], c_s(step["alg"]), c_key(args["info"]),
+                                                     c_bool(args["mat"]), c_N(max(args["siglen"], 0)), c_res(out))
+            else:
+                term = "CJwe %s %s %s %s %s %s %s %s %s" % (
+                    step["entry"], step["src"], c_s(step["alg"]), c_s(step["enc"]), c_key(args["info"]),
+                    c_opt(args["sinfo"], c_key), c_epk(args["epk"]), c_bool(args["mat"]), c_res(out))
+            cases.append(term)
+            meta.append((dict(step, history=list(done)), out))
+            v = judge(step, out, args)
+            if v and not v.startswith("candidate:"):
+                ctx.violation({"kind": v + "-after-warm-up", "entry": step["entry"], "alg": step["alg"]},
+                              "the call succeeded with an unsuitable key%s: %s" % (hist, describe(step)),
+                              {"desc": step, "history": [dict(x) for x in seq[:len(done)]], "jwks": export_mats(mats), "outcome": out})
+            elif (out == "ok") != (outf == "ok"):
+                ctx.violation({"kind": "history-dependent-verdict", "entry": step["entry"], "alg": step["alg"]},
+                              "%s gives %s%s but %s with a fresh key object" % (describe(step), out, hist, outf),
+                              {"desc": step, "history": [dict(x) for x in seq[:len(done)]], "jwks": export_mats(mats),
+                               "outcome": out, "fresh_outcome": outf})
+            done.append("%s %s: %s" % (step["entry"], step["alg"], out))
+    dist["history_calls"] = nh
+
+    # gate-level histories: get_op_key for every operation, in a random order, on one object
+    REG_OPS = list(ALL_OPS)
+    ngh = 0
+    for _ in range(ctx.scale(150, 3000)):
+        kty, p = rng.choice(KINDS)
+        use = rng.choice([None, None, "sig", "enc"])
+        ops = rng.choice([None, []] + [[o] for o in ALL_OPS] + [rng.sample(ALL_OPS, 2), rng.sample(ALL_OPS, 3)])
+        if not consistent(use, ops):
+            use = None
+        private = rng.random() < 0.6
+        try:
+            obj = mats.key(kty, p, "a", private, params_of(use, ops, None))
+            info = key_info(obj)
+        except ValueError:
+            continue
+        permitted = [o for o in REG_OPS if ops is None or o in ops]
+        order = ([rng.choice(permitted)] if permitted else []) + rng.sample(REG_OPS, len(REG_OPS)) + [rng.choice(REG_OPS)]
+        obs = []
+        for o in order:
+            out, _ = outcome(lambda: obj.get_op_key(o))
+            fresh = mats.key(kty, p, "a", private, params_of(use, ops, None))
+            outf, _ = outcome(lambda: fresh.get_op_key(o))
+            obs.append("(%s, %s)" % (c_s(o), c_res(out)))
+            ngh += 1
+            if out != outf:
+                ctx.violation({"kind": "get_op_key-history-dependent", "op": o},
+                              "get_op_key(%r) on a %s/%s key with key_ops=%r gives %s after %r on the same object but %s on a fresh key"
+                              % (o, kty, p, ops, out, order[:len(obs) - 1], outf),
+                              {"info": info, "order": order[:len(obs)], "outcome": out, "fresh_outcome": outf})
+            if out == "ok" and not ops_include(info, o):
+                ctx.violation({"kind": "get_op_key-accepts-after-warm-up", "op": o},
+                              "get_op_key(%r) accepted key_ops=%r after %r on the same key object" % (o, ops, order[:len(obs) - 1]),
+                              {"info": info, "order": order[:len(obs)]})
+        ctx.note_case(("gate-hist", json.dumps(info, sort_keys=True), tuple(order)))
+        cases.append("CHist %s %s" % (c_key(info), c_list(obs)))
+        meta.append(({"fam": "gate", "entry": "get_op_key history", "order": order, "info": info}, "hist"))
+    dist["gate_history_calls"] = ngh
 
     # ---- the gates themselves, directly on Key objects
     ngate = 0
@@ -1340,7 +1510,7 @@ def run(ctx):
 
     # ---- correspondence
     ev = lib.CoqEval(["From Model Require Import Base PyVal TableTypes C06Model C06Cases."], "c06case", "c06_check", "c06_show",
-                     shard=250)
+                     shard=450, max_chars=150000)
     res = ev.run(cases)
     ctx.coverage["traces_validated_against_impl"] = res["evaluated"]
     ctx.coverage["disagreements_checked"] = len(res["failing"])
@@ -1404,6 +1574,17 @@ def replay(path):
         print("see the replay file for the failing case")
         return 1
     runner = Runner(ReplayMats(rep["jwks"]))
+    if rep.get("history") is not None:
+        obj = runner.test_key(d)
+        for step in rep["history"]:
+            rr = (runner.run_jws if step["fam"] == "jws" else runner.run_jwe)(step, key=obj)
+            print("warm-up:", step["entry"], step["alg"], "->", rr[0] if rr else None)
+        out, exc, args = (runner.run_jws if d["fam"] == "jws" else runner.run_jwe)(d, key=obj)
+        fresh = (runner.run_jws if d["fam"] == "jws" else runner.run_jwe)(d)
+        print("outcome after the history:", out, "| with a fresh key object:", fresh[0])
+        v = judge(d, out, args)
+        print("direct oracle:", v)
+        return 1 if (v and not v.startswith("candidate:")) or ((out == "ok") != (fresh[0] == "ok")) else 0
     out, exc, args = {"jws": runner.run_jws, "jwe": runner.run_jwe, "jwem": runner.run_multi}[d["fam"]](d)
     print("outcome:", out, repr(exc) if exc else "")
     v = judge_multi(d, out, args) if d["fam"] == "jwem" else judge(d, out, args)
